@@ -215,6 +215,14 @@ impl Actor for Callee {
         }
         Ok(())
     }
+    /// a callee whose scenario lists the pseudo-request 1000 + idx with policy `Never` has a shutdown hook that never
+    /// finishes (only a kill gets it out of post_stop; the scenario always sends one)
+    async fn post_stop(&self, _myself: ActorRef<CMsg>, _held: &mut Vec<Tok>) -> Result<(), ActorProcessingErr> {
+        if self.sc.pol.iter().any(|(i, p)| *i == 1000 + self.idx as u64 && *p == Pol::Never) {
+            std::future::pending::<()>().await;
+        }
+        Ok(())
+    }
 }
 
 struct Sup;
@@ -491,6 +499,20 @@ pub fn micro_scenarios() -> Vec<Scenario> {
     use COp::*;
     let call = |id, to, via, t| Call { id, to, via, t };
     vec![
+        // a call queued behind a busy handler; graceful stop; the shutdown hook never finishes; a kill gets the callee out
+        // of post_stop and the queued call must then complete with SenderError (not hang)
+        Scenario {
+            ncallees: 1,
+            sup: false,
+            pol: vec![(1, Pol::Late(3)), (2, Pol::Prompt), (1000, Pol::Never)],
+            clients: vec![vec![call(1, 0, Via::Macro, None)], vec![Sleep(1), call(2, 0, Via::Cell, None)], vec![Sleep(2), Stop(0), Sleep(3), Kill(0)]],
+        },
+        Scenario {
+            ncallees: 2,
+            sup: true,
+            pol: vec![(1, Pol::Late(2)), (2, Pol::Prompt), (3, Pol::Prompt), (1000, Pol::Never), (1001, Pol::Never)],
+            clients: vec![vec![call(1, 0, Via::Ref, None)], vec![Sleep(1), call(2, 0, Via::Macro, None)], vec![Sleep(1), Stop(0), Stop(1), Sleep(4), call(3, 1, Via::Cell, Some(2)), Kill(1), Kill(0)]],
+        },
         // three concurrent callers, replies late / prompt / from a helper task, a kill at the reply instant
         Scenario {
             ncallees: 1,
